@@ -229,6 +229,8 @@ impl Check for C07Check {
             _ => r.usize(80, 400),
         };
         let mut elems = Vec::new();
+        // long streams: half of them are ONE run of entries without any scaler block
+        let no_scalers = n_elems >= 5_000 && r.chance(1, 2);
         let mut t: u32 = r.next_u32() & 0xFF_FFFF;
         let mut counter: u32 = r.below(4) as u32;
         for _ in 0..n_elems {
@@ -241,7 +243,8 @@ impl Check for C07Check {
                     elems.push(Elem::Marker { top: counter % 2 == 1, counter: counter & 0x7F_FFFF });
                     counter = counter.wrapping_add(1);
                 }
-                16..=17 => elems.push(Elem::Scaler { seed: r.next_u64() }),
+                16..=17 if !no_scalers => elems.push(Elem::Scaler { seed: r.next_u64() }),
+                16..=17 => elems.push(Elem::Ts { ch: r.below(59) as u8, t24: t }),
                 18 => elems.push(Elem::Ts { ch: *r.pick(&[0u8, 58]), t24: *r.pick(&[0u32, 1, 0xFF_FFFF, 0xFF_FFFE, 0x80_0000, 0x7F_FFFF]) }),
                 _ => elems.push(Elem::Marker { top: r.chance(1, 2), counter: *r.pick(&[0u32, 1, 0x7F_FFFF, 0x7F_FFFE, 0x40_0000]) }),
             }
@@ -429,6 +432,9 @@ impl Check for C07Check {
                 if stream.len() > 65536 {
                     stats.probe("stream_longer_than_64KiB");
                 }
+                if re.len() > 65536 && !elems.iter().any(|e| matches!(e, Elem::Scaler { .. })) {
+                    stats.probe("run_of_more_than_65536_entries_without_scaler_block");
+                }
                 if rc == stream.len() {
                     stats.probe("stream_fully_valid");
                 } else {
@@ -569,13 +575,26 @@ impl Check for C07Check {
             // drop elements (adjusting explicit cuts is not attempted: cuts beyond the end are clamped)
             let n = elems.len();
             let mut chunk = n / 2;
+            let bounds_all = element_bounds(&elems);
             while chunk >= 1 {
-                let mut i = 0;
-                while i + chunk <= n {
+                // at most 16 evenly spaced removal positions per chunk size (bounded memory even for
+                // 70 000-element streams); every position once the stream is small
+                let positions: Vec<usize> = {
+                    let count = n / chunk;
+                    if count <= 16 || n <= 64 {
+                        (0..count).map(|k| k * chunk).collect()
+                    } else {
+                        (0..16).map(|k| (k * (count - 1) / 15) * chunk).collect()
+                    }
+                };
+                for i in positions {
+                    if i + chunk > n {
+                        continue;
+                    }
                     let mut e = elems.clone();
                     e.drain(i..i + chunk);
-                    let removed: usize = element_bounds(&elems)[i..i + chunk].iter().map(|b| b.1 - b.0).sum();
-                    let start = element_bounds(&elems)[i].0;
+                    let removed: usize = bounds_all[i..i + chunk].iter().map(|b| b.1 - b.0).sum();
+                    let start = bounds_all[i].0;
                     let adj = |c: &Cuts| match c {
                         Cuts::Explicit(l) => Cuts::Explicit(
                             l.iter()
@@ -600,9 +619,11 @@ impl Check for C07Check {
                     if f2.len() == flips.len() {
                         out.push(serde_json::to_value(Scn::Stream { elems: e, flips: f2, cuts: cuts.iter().map(adj).collect() }).unwrap());
                     }
-                    i += chunk;
                 }
                 chunk /= 2;
+                if out.len() > 400 {
+                    break;
+                }
             }
             for i in 0..flips.len() {
                 let mut f = flips.clone();
